@@ -71,7 +71,7 @@ func flowKit(m *rulesh.Mod[flow.Rule]) *kit[flow.Rule] {
 			return &flow.Rule{Resource: res, TokenCalculateStrategy: flow.WarmUp, ControlBehavior: flow.Throttling, Threshold: r.PickF(10, 20),
 				WarmUpPeriodSec: 5, WarmUpColdFactor: uint32(r.PickI(0, 3)), MaxQueueingTimeMs: uint32(r.PickI(200, 500))}, "warmup-throttling"
 		case 3:
-			return &flow.Rule{Resource: res, Threshold: r.PickF(3, 5), StatIntervalInMs: uint32(r.PickI(700, 3000))}, "reject-private-statistics"
+			return &flow.Rule{Resource: res, Threshold: r.PickF(3, 5), StatIntervalInMs: uint32(r.PickI(700, 3000, 1750, 1250))}, "reject-private-statistics"
 		default:
 			return &flow.Rule{Resource: res, Threshold: r.PickF(3, 5)}, "reject-shared-statistics"
 		}
@@ -104,7 +104,9 @@ func flowKit(m *rulesh.Mod[flow.Rule]) *kit[flow.Rule] {
 	kt.refLoads = func(u *flow.Rule) bool { return u.RelationStrategy == flow.AssociatedResource }
 	kt.traffic = func(r *rng.R, kind string) [][]ev {
 		if kind == "associated-private-window" {
-			return segments(r, func() ev { return ev{Dt: uint64(r.PickI(0, 0, 1, 10, 100, 100, 300, 600, 1100, 2500)), On2: r.Chance(3, 5)} })
+			return segments(r, func() ev {
+				return ev{Dt: uint64(r.PickI(0, 0, 1, 10, 100, 100, 300, 600, 1100, 2500)), On2: r.Chance(3, 5)}
+			})
 		}
 		return segments(r, func() ev { return ev{Dt: uint64(r.PickI(0, 0, 1, 10, 100, 100, 300, 600, 1100, 2500))} })
 	}
@@ -135,7 +137,7 @@ func flowKit(m *rulesh.Mod[flow.Rule]) *kit[flow.Rule] {
 		}
 	}
 	kt.stat = func(r *rng.R, res string) statScen[flow.Rule] {
-		iv := uint32(r.PickI(700, 3000))
+		iv := uint32(r.PickI(700, 3000, 1750, 1250)) // also intervals that are not multiples of the global bucket length
 		n := 1 + r.Intn(6)
 		if r.Chance(1, 3) {
 			// one old statistics object, two new rules with its statistic parameters: the first in list
@@ -176,6 +178,9 @@ func flowKit(m *rulesh.Mod[flow.Rule]) *kit[flow.Rule] {
 		mod := flow.Rule{Resource: res, Threshold: t2, StatIntervalInMs: iv}
 		if !sc.Reuse {
 			mod.StatIntervalInMs = 3700 - iv // the other private geometry: nothing to take over
+			if iv != 700 && iv != 3000 {
+				mod.StatIntervalInMs = 700
+			}
 		}
 		sc.Mod = []*flow.Rule{&mod}
 		if r.Bool() { // an unrelated permissive rule first; its statistic parameters differ from both
